@@ -9,6 +9,7 @@ import (
 	"golang.org/x/tools/go/ssa"
 
 	"verif/checker/internal/core"
+	"verif/checker/internal/flow"
 )
 
 func init() {
@@ -33,6 +34,7 @@ func init() {
 			{Name: "subparser-errors-not-deferred", File: pp, Old: "\tdefer func() { p.errors = append(p.errors, sp.errors...) }()\n", New: "", Old2: "\tsp.expect(token.SEMICOLON)\n", New2: "\tsp.expect(token.SEMICOLON)\n\tp.errors = append(p.errors, sp.errors...)\n", Expect: "subparser-errors/parser.domainTextLitEx"},
 			{Name: "exprex-errors-dropped", File: pp, Old: "\tif err != nil {\n\t\tp.errors = append(p.errors, err...)\n\t\texpr = &ast.BadExpr{From: off, To: end}\n\t}", New: "\tif err != nil {\n\t\texpr = &ast.BadExpr{From: off, To: end}\n\t}", Expect: "subparser-errors/parser.stringLitExpr"},
 			{Name: "advance-no-guard", File: pp, Old: "\t\t\tif p.pos == p.syncPos && p.syncCnt < 10 {\n\t\t\t\tp.syncCnt++\n\t\t\t\treturn\n\t\t\t}", New: "\t\t\tif p.pos == p.syncPos {\n\t\t\t\treturn\n\t\t\t}", Expect: "progress/parser.advance"},
+			{Name: "scope-not-closed-on-path", File: pp, Old: "\tpos := p.expect(token.FOR)\n\tp.openScope()\n\tdefer p.closeScope()\n\n\tvar s1, s2, s3 ast.Stmt", New: "\tpos := p.expect(token.FOR)\n\tp.openScope()\n\n\tvar s1, s2, s3 ast.Stmt", Expect: "scope-pairing/parser.parseForStmt"},
 			{Name: "new-assert-site", File: pp, Old: "\tcall := p.parseCallExpr(\"go\")\n", New: "\tcall := p.parseCallExpr(\"go\")\n\tassert(call != nil, \"nil call\")\n", Expect: "assert-site/parser.parseGoStmt"},
 		},
 	})
@@ -405,4 +407,110 @@ func runC13(c *core.Check) {
 		}
 		c.Decide(good, "progress", "parser.advance", afd.Pos(), "token-per-iteration loop; returns only under the syncPos/syncCnt guard", why)
 	}
+	// ---------- (e) scope pairing: an unbalanced scope trips assert("unbalanced scopes") at the end of parseFile
+	scopePairing(c, prog)
+}
+
+// c13ScopeNet: functions whose net scope effect is deliberately non-zero (function -> net, reason).
+var c13ScopeNet = map[string]struct {
+	net int
+	why string
+}{
+	"parser.parseBody": {-1, "closes the function scope that its caller created with ast.NewScope and that parseBody itself installs by assignment (p.topScope = scope)"},
+}
+
+func scopePairing(c *core.Check, prog *core.Prog) {
+	pk := prog.Pkg("./parser")
+	info := pk.TypesInfo
+	parserT := prog.NamedType("./parser", "parser")
+	open, closeM := findMethod(parserT, "openScope"), findMethod(parserT, "closeScope")
+	openL, closeL := findMethod(parserT, "openLabelScope"), findMethod(parserT, "closeLabelScope")
+	if open == nil || closeM == nil {
+		c.Bad("anchor", "parser.openScope/closeScope", 0, "scope helpers not found")
+		return
+	}
+	// state layout: bits 0-2 depth(+2 bias), 3-5 deferred closes, 6-8 label depth(+2), 9-11 deferred label closes, 12 overflow
+	get := func(st flow.State, sh uint) int { return int(st>>sh) & 7 }
+	set := func(st flow.State, sh uint, v int) flow.State {
+		if v < 0 || v > 7 {
+			return st | 1<<12
+		}
+		return st&^(7<<sh) | flow.State(v)<<sh
+	}
+	n := 0
+	for _, fd := range core.AllFuncDecls(pk) {
+		uses := false
+		ast.Inspect(fd.Body, func(m ast.Node) bool {
+			if call, ok := m.(*ast.CallExpr); ok {
+				switch calleeObj(info, call) {
+				case open, closeM, openL, closeL:
+					uses = true
+				}
+			}
+			return true
+		})
+		if !uses || core.RecvName(fd) != "parser" {
+			continue
+		}
+		switch fd.Name.Name {
+		case "openScope", "closeScope", "openLabelScope", "closeLabelScope":
+			continue
+		}
+		n++
+		p := &flow.Problem{Body: fd.Body, Info: info, Init: 2 | 2<<6}
+		p.Node = func(nd ast.Node, st flow.State, record bool) flow.State {
+			if d, ok := nd.(*ast.DeferStmt); ok {
+				switch calleeObj(info, d.Call) {
+				case closeM:
+					st = set(st, 3, get(st, 3)+1)
+				case closeL:
+					st = set(st, 9, get(st, 9)+1)
+				}
+				return st
+			}
+			if as, ok := nd.(*ast.AssignStmt); ok && len(as.Lhs) == 1 && len(as.Rhs) == 1 {
+				// p.topScope = ast.NewScope(p.topScope) opens a scope by hand
+				if sel, ok := ast.Unparen(as.Lhs[0]).(*ast.SelectorExpr); ok && sel.Sel.Name == "topScope" {
+					if call, ok := ast.Unparen(as.Rhs[0]).(*ast.CallExpr); ok {
+						if fn, ok := calleeObj(info, call).(*types.Func); ok && fn.Name() == "NewScope" {
+							st = set(st, 0, get(st, 0)+1)
+						}
+					}
+				}
+			}
+			for _, call := range flow.Calls(nd) {
+				switch calleeObj(info, call) {
+				case open:
+					st = set(st, 0, get(st, 0)+1)
+				case closeM:
+					st = set(st, 0, get(st, 0)-1)
+				case openL:
+					st = set(st, 6, get(st, 6)+1)
+				case closeL:
+					st = set(st, 6, get(st, 6)-1)
+				}
+			}
+			return st
+		}
+		res := flow.Solve(p)
+		name := "parser." + fd.Name.Name
+		want := 0
+		if e, ok := c13ScopeNet[name]; ok {
+			want = e.net
+		}
+		bad := token.NoPos
+		got := 0
+		for _, e := range res.Exits {
+			net := get(e.State, 0) - 2 - get(e.State, 3)
+			netL := get(e.State, 6) - 2 - get(e.State, 9)
+			if e.State&(1<<12) != 0 || net != want || netL != 0 {
+				bad, got = e.Pos, net
+			}
+		}
+		c.Decide(!bad.IsValid(), "scope-pairing", name, bad, core.Sprintf("every exit leaves the scope depth changed by %d", want),
+			core.Sprintf("an exit of this method leaves the identifier/label scope depth changed by %d instead of %d (an openScope without its closeScope on that path, or the reverse): parseFile's assert(\"unbalanced scopes\") then panics, or later identifiers resolve in the wrong scope", got, want))
+	}
+	c.Floor("scope-pairing", 8)
+	c.Analysed("functions_with_scope_calls", n)
+
 }
